@@ -5,6 +5,7 @@
 #include <fstream>
 #include <memory>
 #include <functional>
+#include <limits>
 #include <set>
 #include <sstream>
 #include <sys/stat.h>
@@ -195,15 +196,24 @@ int main(int argc, char ** argv)
           }
           std::string pstr;
           for (int f = 0; f < F; f++) pstr += (f ? "+" : "") + std::to_string(part[f]);
-          for (int start = 0; start <= N + 2; start++)
-            for (int mx = 0; mx <= N + 2; mx++)
+          for (int start = 0; start <= N + 2; start++) {
+            // window sizes: the small scope, and the largest representable ones ("no limit" written as INT_MAX) whose end start+max-1
+            // lies at or beyond INT_MAX: the window is then everything from start on
+            std::vector<int> mxs;
+            for (int mx = 0; mx <= N + 2; mx++) mxs.push_back(mx);
+            if ((partitions + start) % 4 == 0) {
+              mxs.push_back(std::numeric_limits<int>::max());
+              mxs.push_back(std::numeric_limits<int>::max() - start);
+              if (start >= 1) mxs.push_back(std::numeric_limits<int>::max() - start + 1);
+            }
+            for (int mx : mxs)
               for (int pattern = 0; pattern < 9; pattern++) {
                 // pattern: (extra has_next calls before each load, extra after the last)
                 int extra_before = pattern % 3, extra_after = pattern / 3;
                 sessions++;
                 std::vector<int> expect;
-                for (int i = start; i < N && (mx == 0 || i < start + mx); i++) expect.push_back(i);
-                std::string cls = fmt("N%d/F%d/%s/%s", N, F, start >= N ? "start>=N" : "start<N", mx == 0 ? "all" : (start + mx > N ? "max-beyond" : "max-inside"));
+                for (int i = start; i < N && (mx == 0 || i < (long long)start + mx); i++) expect.push_back(i);
+                std::string cls = fmt("N%d/F%d/%s/%s", N, F, start >= N ? "start>=N" : "start<N", mx == 0 ? "all" : (mx > 1000000 ? "max-huge" : ((long long)start + mx > N ? "max-beyond" : "max-inside")));
                 classes.insert(cls);
                 std::string wit = fmt("N=%d files=%s start=%d max=%d extra has_next before=%d after=%d", N, pstr.c_str(), start, mx, extra_before, extra_after);
                 bxdecay0::event_reader::config_type cfg;
@@ -295,6 +305,7 @@ int main(int argc, char ** argv)
                 }
                 if (!problem.empty()) fail("window|" + pkey, problem + " (" + wit + ")", wit);
               }
+          }
           return;
         }
         for (int v = 0; v <= left; v++) {
